@@ -68,6 +68,7 @@ func crashVAA(i, variant int64) (*vaa.VAA, []byte) {
 }
 
 type crashWorld struct {
+	aborted             bool
 	res                 *simkit.Result
 	log                 *simkit.Log
 	stats               *simkit.Stats
@@ -333,7 +334,7 @@ func (w *crashWorld) run(p *simkit.Program) {
 			w.log.Add("storm %d stores", n)
 		case "realkill":
 			w.realKill(st)
-			if w.res.HarnessErr != "" {
+			if w.res.HarnessErr != "" || w.aborted {
 				return
 			}
 		case "kill":
@@ -586,6 +587,7 @@ func (w *crashWorld) realKill(st simkit.Step) {
 	}
 	sc := bufio.NewScanner(stdout)
 	acked := -1
+	childErr := false
 	for sc.Scan() {
 		line := sc.Text()
 		if len(line) > 4 && line[:4] == "ACK " {
@@ -593,7 +595,12 @@ func (w *crashWorld) realKill(st simkit.Step) {
 			if acked >= killAfter {
 				break
 			}
+		} else if len(line) >= 8 && line[:8] == "ERR open" {
+			childErr = true
+			w.violate("store-does-not-reopen-after-kill", "a new process cannot open the store that was closed cleanly (%d ids acknowledged so far): %s", len(w.acked), line)
+			break
 		} else if len(line) >= 3 && line[:3] == "ERR" {
+			childErr = true
 			w.violate("store-failed", "child: %s", line)
 			break
 		}
@@ -620,6 +627,12 @@ func (w *crashWorld) realKill(st simkit.Step) {
 	cmd.Wait()
 	if stopMode && late > 0 {
 		w.res.HarnessErr = fmt.Sprintf("child did not stop after acknowledgement %d: %d more lines", killAfter, late)
+		return
+	}
+	if childErr {
+		// the violation is recorded; the run ends here (the store under test is unusable)
+		w.d = nil
+		w.aborted = true
 		return
 	}
 	w.kills++
